@@ -122,7 +122,7 @@ def exn_class(e):
     return 'other:' + type(e).__name__
 
 
-class _Log(CallbackListener):
+class _LogBase(CallbackListener):
     def __init__(self, world):
         self.w = world
         super().__init__()
@@ -182,6 +182,17 @@ class _Log(CallbackListener):
     def dictionary_set(self, e, k, v): self.w.events.append('dset:%s:%s:%s' % (self._i(e), tok_of_s(k), tok_of_val(v)))
     def dictionary_delete(self, e, k): self.w.events.append('ddel:%s:%s' % (self._i(e), tok_of_s(k)))
     def dictionary_pop(self, e, k): self.w.events.append('dpop:%s:%s' % (self._i(e), tok_of_s(k)))
+
+
+class _Log(_LogBase):
+    """the listener the harness registers is a SUBCLASS of the class that defines most hooks (a reusable mirror
+    extended by a project is the normal way to use the callback framework): inherited hooks must be told too"""
+
+    def create_netlist(self, x):
+        super().create_netlist(x)
+
+    def definition_add_port(self, p, c):
+        super().definition_add_port(p, c)
 
 
 class DanglingId(Exception):
